@@ -44,6 +44,24 @@ def search_real(ctx, directed=()):
                 bad.append((z, preset, got, e))
             elif preset == "vdw_covalent" and not (got > 0 and math.isfinite(got)):
                 bad.append((z, preset, got, "finite positive"))
+    # requests for several atoms at once (the whole range, and mixtures of elements with and without a van der Waals radius):
+    # the result must be the per-element table value for every atom, whatever else is in the request
+    rng = np.random.default_rng(ctx.seed + 191)
+    requests = [np.arange(1, 104)] + [rng.choice(np.arange(1, 104), int(rng.integers(2, 12))) for _ in range(60)]
+    requests += [np.array([z0, 8, 17, 29]) for z0 in (61, 84, 85, 86, 87, 88, 100, 101, 102, 103)]
+    for req in requests:
+        for preset in ("covalent", "vdw", "vdw_covalent"):
+            try:
+                got = np.asarray(G.get_radii(preset, req), dtype=float)
+            except Exception as e:  # noqa
+                bad.append((int(req[0]), preset, "exception %s for the request %s" % (type(e).__name__, req.tolist()[:8]), None))
+                continue
+            ctx.case(("request", preset, req.tobytes()), nontrivial=True)
+            for z, g in zip(req.tolist(), got.tolist()):
+                e = oracle(int(z), cov, vdw)[preset]
+                if not ((math.isnan(g) and math.isnan(e)) or g == e):
+                    bad.append((int(z), preset, "%r within the request %s" % (g, req.tolist()[:8]), e))
+                    break
     # custom arrays are returned unchanged
     rng = np.random.default_rng(ctx.seed)
     for _ in range(50):
